@@ -39,4 +39,8 @@ theorem stored_first (k : Int) (vocab : LK.Py.V) : stateIdsBranch (some k) vocab
 /-- numbers are restored exactly when the state holds some -/
 theorem restore_iff (b : Bool) : restoreNumbersBranch b = 0 ↔ b = true := by cases b <;> simp [restoreNumbersBranch]
 
+/-- the tables of a dataset are written with no option beyond the compression — nothing that coerces or truncates a value on the way
+    to the file (a date-time keeps its resolution) -/
+theorem tables_written_as_they_are : writeTableExtraOptions = 0 := by decide
+
 end LK.Gen.GuardsC15
